@@ -22,6 +22,7 @@ import (
 	"os"
 	"os/exec"
 	"path/filepath"
+	"regexp"
 	"sort"
 	"strconv"
 	"strings"
@@ -439,6 +440,15 @@ func caseApproval() {
 		f = append(f, res.Verdict, I(int64(res.Status)), B(res.Semver), B(res.Stored))
 		out.Note("variant-" + what + "-" + res.Verdict)
 	}
+	// the uploader's own report once more, verbatim, after the perturbed ones (the
+	// handler's answer to a request must not depend on what was posted before)
+	if body != nil {
+		res := askServer(ucfg, body)
+		f = append(f, "again", res.Verdict, I(int64(res.Status)), B(res.Semver), B(res.Stored))
+		out.Note("uploader-report-again-" + strconv.Itoa(res.Status))
+	} else {
+		f = append(f, "noagain")
+	}
 	// the uploader at X = 0 (the most permissive X) on the whole week
 	anyCount := false
 	for _, pf := range parsed {
@@ -540,6 +550,198 @@ func caseApproval() {
 	out.Case(true, f...)
 }
 
+// ---------------------------------------------------------------- the viewer's index page over several requests
+
+var fileBlockRE = regexp.MustCompile(`(?s)<h3 id="([^"]*)">`)
+var summaryRE = regexp.MustCompile(`(?s)<div class="Summary">(.*?)</div>`)
+
+// pageSummaries: per count file (by its name) the text of its Summary div ("" when absent)
+func pageSummaries(body string) map[string]string {
+	res := map[string]string{}
+	i := strings.Index(body, `<section class="Files">`)
+	if i < 0 {
+		return res
+	}
+	sec := body[i:]
+	if j := strings.Index(sec, "</section>"); j >= 0 {
+		sec = sec[:j]
+	}
+	blocks := strings.Split(sec, `<div class="File">`)
+	for _, b := range blocks[1:] {
+		m := fileBlockRE.FindStringSubmatch(b)
+		if m == nil {
+			continue
+		}
+		sum := ""
+		if sm := summaryRE.FindStringSubmatch(b); sm != nil {
+			sum = sm[1]
+		}
+		res[html.UnescapeString(m[1])] = sum
+	}
+	return res
+}
+
+func cloneConfig(c *telemetry.UploadConfig) *telemetry.UploadConfig {
+	b, _ := json.Marshal(c)
+	var d telemetry.UploadConfig
+	json.Unmarshal(b, &d)
+	return &d
+}
+
+// olderConfig: the configuration one version earlier: something the newer one approves is missing
+func olderConfig(cfg *telemetry.UploadConfig, files []fileSpec) *telemetry.UploadConfig {
+	old := cloneConfig(cfg)
+	f := Pick(rnd, files)
+	for tries := 0; tries < 4; tries++ {
+		switch rnd.Intn(6) {
+		case 0: // the program was not there yet
+			var ps []*telemetry.ProgramConfig
+			for _, p := range old.Programs {
+				if p.Name != f.ID.Program {
+					ps = append(ps, p)
+				}
+			}
+			old.Programs = ps
+		case 1: // its counters were not there yet
+			for _, p := range old.Programs {
+				if p.Name == f.ID.Program && len(p.Counters) > 0 {
+					p.Counters = p.Counters[:len(p.Counters)/2]
+				}
+			}
+		case 2: // nor its stacks
+			for _, p := range old.Programs {
+				if p.Name == f.ID.Program {
+					p.Stacks = nil
+				}
+			}
+		case 3: // the version was not released yet
+			for _, p := range old.Programs {
+				var vs []string
+				for _, v := range p.Versions {
+					if v != f.ID.Version {
+						vs = append(vs, v)
+					}
+				}
+				p.Versions = vs
+			}
+		case 4: // nor the Go version
+			var vs []string
+			for _, v := range old.GoVersion {
+				if v != f.ID.GoVersion {
+					vs = append(vs, v)
+				}
+			}
+			old.GoVersion = vs
+		default:
+			return GenConfig(rnd, 0.5)
+		}
+	}
+	return old
+}
+
+// casePages: ONE viewer Server (helper: view.Server + handleIndex over the
+// embedded content, config fetched by the real configstore.Download from a
+// file:// proxy holding two versions) answers a sequence of page requests for
+// different configuration versions, with the proxy unreachable for some; every
+// page's per-file summaries are compared with the model and judged by the
+// oracle under the configuration THAT request names.
+func casePages() {
+	x := 0.5
+	var cfgNew *telemetry.UploadConfig
+	var files []fileSpec
+	BigValues = false
+	switch rnd.Intn(3) {
+	case 0:
+		cfgNew, files = GenSharedNamesWeek(rnd, x)
+	case 1:
+		cfgNew, files = GenSameBaseWeek(rnd, x)
+	default:
+		cfgNew = GenConfig(rnd, x)
+		for i := 0; i < 1+rnd.Intn(3); i++ {
+			b := GenIdent(rnd, cfgNew)
+			files = append(files, fileSpec{ID: b, Counts: GenCounts(rnd, cfgNew, b.Program, 6)})
+		}
+	}
+	cfgOld := olderConfig(cfgNew, files)
+	w := genWeek()
+	files = PlaceFiles(rnd, files, w.begin, w.end, rnd.Bool())
+	dir, err := os.MkdirTemp(root, "p")
+	if err != nil {
+		panic(err)
+	}
+	defer os.RemoveAll(dir)
+	tdir := telemetry.NewDir(dir)
+	os.MkdirAll(tdir.LocalDir(), 0777)
+	f := []string{"pages", I(int64(len(files)))}
+	for _, fs := range files {
+		data := EncodeCountFile(MetaString(fs.Begin.Format(time.RFC3339), w.end.Format(time.RFC3339), fs.ID, fs.Omit), fs.Counts)
+		name := filepath.Join(tdir.LocalDir(), fs.Name)
+		if err := os.WriteFile(name, data, 0666); err != nil {
+			panic(err)
+		}
+		pf, err := counter.Parse(name, data)
+		if err != nil {
+			panic(err)
+		}
+		f = append(f, WFile(pf.Meta, pf.Count)...)
+	}
+	empty := &telemetry.UploadConfig{}
+	type preq struct {
+		Version string
+		ProxyUp bool
+	}
+	patterns := [][]preq{
+		{{"v1.0.0", true}, {"latest", true}},
+		{{"latest", true}, {"v1.0.0", true}, {"latest", true}},
+		{{"", false}, {"latest", true}},
+		{{"v1.0.0", false}, {"v1.0.0", true}, {"", true}},
+		{{"empty", true}, {"v1.1.0", true}, {"v1.0.0", true}},
+		{{"v1.1.0", true}, {"empty", true}, {"latest", true}},
+	}
+	reqs := Pick(rnd, patterns)
+	var res struct {
+		Pages []struct {
+			Status int
+			Body   string
+		}
+	}
+	viewer.call(map[string]any{"What": "pages", "Dir": dir,
+		"Configs": map[string]*telemetry.UploadConfig{"v1.0.0": cfgOld, "v1.1.0": cfgNew}, "Requests": reqs}, &res)
+	if len(res.Pages) != len(reqs) {
+		panic("the viewer helper did not answer every page request")
+	}
+	f = append(f, I(int64(len(reqs))))
+	for i, r := range reqs {
+		// the configuration this request names (documented: "" = latest = newest version; an
+		// unreachable store falls back to the empty configuration)
+		want := empty
+		switch {
+		case r.Version == "empty":
+		case !r.ProxyUp:
+		case r.Version == "v1.0.0":
+			want = cfgOld
+		default:
+			want = cfgNew
+		}
+		out.Note("page-" + map[bool]string{true: "up", false: "down"}[r.ProxyUp] + "-" + r.Version)
+		f = append(f, HS(r.Version), B(r.ProxyUp))
+		f = append(f, WConfig(want)...)
+		f = append(f, I(int64(res.Pages[i].Status)))
+		sums := pageSummaries(res.Pages[i].Body)
+		for _, fs := range files {
+			s, ok := sums[fs.Name]
+			class, names := "missing", []string(nil)
+			if ok {
+				class, names = classifySummary(s)
+			}
+			f = append(f, class)
+			f = append(f, WStrs(names)...)
+		}
+	}
+	out.Note(fmt.Sprintf("pages-%d", len(reqs)))
+	out.Case(true, f...)
+}
+
 func main() {
 	outPath := os.Args[1]
 	n, _ := strconv.Atoi(os.Args[2])
@@ -554,7 +756,11 @@ func main() {
 	server = startHelper("../bin-vh_server", "VERIF_HARNESS=approval-server")
 	viewer = startHelper("../bin-vh_view")
 	for i := 0; i < n; i++ {
-		caseApproval()
+		if i%25 == 3 {
+			casePages()
+		} else {
+			caseApproval()
+		}
 	}
 	out.Close()
 	os.RemoveAll(root)
